@@ -1848,12 +1848,8 @@ class IRGenerator:
             doc_types, routes_by_ns = parse_data_types_and_routes_from_doc_ref(
                 self.api, doc, namespace_name)
             route_data_types.extend(doc_types)
-            for route_namespace_name, routes in routes_by_ns.items():
-                route_namespace = self.api.namespaces[route_namespace_name]
-                for route in routes:
-                    doc_routes[route_namespace_name].add(route)
-                    route_data_types.extend(
-                        route_namespace.get_route_io_data_types_for_route(route))
+            for route_namespace_name, mentioned in routes_by_ns.items():
+                doc_routes[route_namespace_name].update(mentioned)
 
         for namespace_name, route_reprs in route_whitelist.items():
             # Error out if user supplied nonexistent namespace
@@ -1898,9 +1894,8 @@ class IRGenerator:
                 route_data_types.append(data_type)
 
         # Recurse on dependencies
-        output_types_by_ns, output_routes_by_ns = self._find_dependencies(route_data_types)
-        for namespace_name, routes in doc_routes.items():
-            output_routes_by_ns[namespace_name].update(routes)
+        output_types_by_ns, output_routes_by_ns = self._find_dependencies(
+            route_data_types, doc_routes)
 
         # Update the IR representation. This involves editing the data types and
         # routes for each namespace.
@@ -1953,13 +1948,43 @@ class IRGenerator:
         else:
             return True
 
-    def _find_dependencies(self, data_types):
+    def _find_dependencies(self, data_types, routes_by_ns=None):
         output_types = defaultdict(list)
         output_routes = defaultdict(set)
         seen = set()
         for t in data_types:
             self._find_dependencies_recursive(t, seen, output_types, output_routes)
+        for namespace_name, routes in (routes_by_ns or {}).items():
+            for route in routes:
+                self._find_route_dependencies(route, namespace_name, seen, output_types,
+                                              output_routes)
         return output_types, output_routes
+
+    def _find_doc_dependencies(self, doc, namespace_context, seen, output_types,
+                               output_routes):
+        # What a docstring written in namespace_context refers to.
+        doc_types, routes_by_ns = parse_data_types_and_routes_from_doc_ref(
+            self.api, doc, namespace_context)
+        for t in doc_types:
+            self._find_dependencies_recursive(t, seen, output_types, output_routes)
+        for namespace_name, routes in routes_by_ns.items():
+            for route in routes:
+                self._find_route_dependencies(route, namespace_name, seen, output_types,
+                                              output_routes)
+
+    def _find_route_dependencies(self, route, namespace_name, seen, output_types,
+                                 output_routes):
+        # A route that a docstring refers to: the route itself, its argument,
+        # result and error types, and what its own docstring refers to.
+        if route in output_routes[namespace_name]:
+            return
+        output_routes[namespace_name].add(route)
+        route_namespace = self.api.namespaces[namespace_name]
+        for route_type in route_namespace.get_route_io_data_types_for_route(route):
+            self._find_dependencies_recursive(route_type, seen, output_types, output_routes)
+        if route.doc is not None:
+            self._find_doc_dependencies(route.doc, namespace_name, seen, output_types,
+                                        output_routes)
 
     def _find_dependencies_recursive(self, data_type, seen, output_types,
                                      output_routes, type_context=None):
@@ -1985,18 +2010,8 @@ class IRGenerator:
                 self._find_dependencies_recursive(data_type.parent_type, seen, output_types,
                                                   output_routes)
             if data_type.doc is not None:
-                doc_types, routes_by_ns = parse_data_types_and_routes_from_doc_ref(
-                    self.api, data_type.doc, data_type.namespace.name)
-                for t in doc_types:
-                    self._find_dependencies_recursive(t, seen, output_types, output_routes)
-                for namespace_name, routes in routes_by_ns.items():
-                    route_namespace = self.api.namespaces[namespace_name]
-                    for route in routes:
-                        output_routes[namespace_name].add(route)
-                        route_types = route_namespace.get_route_io_data_types_for_route(route)
-                        for route_type in route_types:
-                            self._find_dependencies_recursive(route_type, seen, output_types,
-                                                              output_routes)
+                self._find_doc_dependencies(data_type.doc, data_type.namespace.name, seen,
+                                            output_types, output_routes)
             if is_struct_type(data_type) and data_type.has_enumerated_subtypes():
                 for subtype in data_type.get_enumerated_subtypes():
                     self._find_dependencies_recursive(subtype, seen, output_types, output_routes,
@@ -2011,18 +2026,8 @@ class IRGenerator:
             self._find_dependencies_recursive(data_type.data_type, seen, output_types,
                                               output_routes)
             if data_type.doc is not None:
-                doc_types, routes_by_ns = parse_data_types_and_routes_from_doc_ref(
-                    self.api, data_type.doc, namespace_context)
-                for t in doc_types:
-                    self._find_dependencies_recursive(t, seen, output_types, output_routes)
-                for namespace_name, routes in routes_by_ns.items():
-                    route_namespace = self.api.namespaces[namespace_name]
-                    for route in routes:
-                        output_routes[namespace_name].add(route)
-                        route_types = route_namespace.get_route_io_data_types_for_route(route)
-                        for route_type in route_types:
-                            self._find_dependencies_recursive(route_type, seen, output_types,
-                                                              output_routes)
+                self._find_doc_dependencies(data_type.doc, namespace_context, seen,
+                                            output_types, output_routes)
         elif is_list_type(data_type) or is_nullable_type(data_type):
             # recurse on underlying field for aliases, lists, nullables, and fields
             seen.add(data_type)
